@@ -40,14 +40,15 @@ func (s caseSpec) stream(salt string) uint64 {
 }
 
 type typeStats struct {
-	Cases        int64 `json:"cases"`
-	Variants     int64 `json:"variant_cases"`
-	Copies       int64 `json:"copies_judged"`
-	MaxLocs      int64 `json:"max_mutable_locations"`
-	TotalLocs    int64 `json:"total_mutable_locations"`
-	Mutations    int64 `json:"mutations_applied"`
-	NilablePaths int   `json:"nilable_type_paths"`
-	VariantPaths int   `json:"variant_paths_run"`
+	Cases        int64    `json:"cases"`
+	Variants     int64    `json:"variant_cases"`
+	Copies       int64    `json:"copies_judged"`
+	MaxLocs      int64    `json:"max_mutable_locations"`
+	TotalLocs    int64    `json:"total_mutable_locations"`
+	Mutations    int64    `json:"mutations_applied"`
+	NilablePaths int      `json:"nilable_type_paths"`
+	VariantPaths int      `json:"variant_paths_run"`
+	OwnPaths     []string `json:"own_nilable_paths_nil_and_empty,omitempty"` // paths not crossing an interface
 }
 
 type state struct {
@@ -97,7 +98,11 @@ func (s *state) judge(rootName string, orig, cp reflect.Value) *judgement {
 	w.equal(orig, cp, root, &er, 0)
 	j.nilEmpty = er.nilEmptyDiff
 	for _, d := range er.diffs {
-		j.findings = append(j.findings, finding{d.pt, "not-equal", map[string]any{"path": d.pt.full, "original_vs_copy": d.what}})
+		cls := d.class
+		if cls == "" {
+			cls = "not-equal"
+		}
+		j.findings = append(j.findings, finding{d.pt, cls, map[string]any{"path": d.pt.full, "original_vs_copy": d.what}})
 	}
 
 	// (2) disjointness
@@ -235,6 +240,9 @@ func (s *state) runCase(e *entry, spec caseSpec) {
 		record = nil // the same original is rebuilt for every op; record once
 		for _, pr := range pop.problems {
 			c.Inconclusive(pr)
+		}
+		if spec.Kind == "variant" && pop.forced > 0 && op.name == "DeepCopy" {
+			c.Count("variant_locations_forced_"+modeName(spec.Mode), int64(pop.forced))
 		}
 		if spec.Kind == "variant" && pop.forced == 0 {
 			c.Inconclusive("variant path not reached: " + e.name + "/" + spec.Force)
@@ -401,7 +409,9 @@ func run(c *mon.Ctx) {
 		"forced path, shape: chosen lengths and implementations); zero-size types (nothing to share) are not counted as non-trivial."
 	c.Assume("Go's garbage collector does not move heap objects: addresses taken with reflect stay comparable while both graphs are alive")
 	c.Assume("string data is immutable and not counted as shared mutable memory; zero-size allocations (all at runtime.zerobase) are ignored")
-	c.Assume("nil-vs-empty slice/map differences between original and copy are counted (nil_vs_empty_differences), not judged: the property says 'equal'")
+	c.Assume("nil and empty-non-nil slices/maps are DIFFERENT values for this library (NULL vs empty [bytes]/cells/payload values on the wire): a nil-vs-empty " +
+		"difference between original and copy at any depth is a violation (<type>/<path>/nil-vs-empty); every slice/map position seen (incl. RowsResult.Data[][] cells, " +
+		"map values, Value.Contents behind []*Value) is exercised both nil and empty-non-nil by the variants")
 	c.Assume("two backing arrays that overlap only beyond len of BOTH slices (spare capacity) are counted (shared_capacity_tail_only), not judged: not observable through either value")
 	c.Assume("the 20 package-level *datatype.PrimitiveType singletons (datatype.Int ...) are placed in 1/4 of the PrimitiveType positions of originals but are never " +
 		"mutated by the check (global state); a copy that reaches the SAME singleton as its original is counted (shared_primitive_singletons), not judged. " +
@@ -507,6 +517,15 @@ func run(c *mon.Ctx) {
 			paths = keep
 		}
 		st.VariantPaths = len(paths)
+		for _, p := range paths {
+			if !strings.Contains(p, "(") {
+				k := "nil"
+				if kk := m[p]; kk == reflect.Slice || kk == reflect.Map {
+					k = "nil+empty"
+				}
+				st.OwnPaths = append(st.OwnPaths, p+":"+k)
+			}
+		}
 		runPaths += len(paths)
 		for _, p := range paths {
 			modes := []int{modeNil}
